@@ -78,7 +78,7 @@ let fins_of_tok (s : string) : n list list =
   List.map (fun x -> if x = "OURS" then finalizer else str_of_string x) (split_list s '+')
 
 let pouts_of_tok (s : string) : patch_outcome list =
-  List.map (function "ok" -> POk | "tmo" -> PTimeoutApplied | _ -> PFail) (split_list s ',')
+  List.map (function "ok" -> POk | "tmo" -> PTimeoutApplied | "tmn" -> PTimeoutNotApplied | _ -> PFail) (split_list s ',')
 let uout_of_string = function "ok" -> UOk | "aerr" -> UAppliedErr | _ -> UFail
 let uouts_of_tok (s : string) : upd_outcome list = List.map uout_of_string (split_list s ',')
 let first_uout (s : string) : upd_outcome = match split_list s ',' with x :: _ -> uout_of_string x | [] -> UFail
@@ -128,8 +128,9 @@ let effect_tok (e : effect) : string =
   match e with
   | FxPatch (n, cs, o) ->
     Printf.sprintf "patch %s %s %s" (string_of_str n) (join_or (List.map canon_cidr cs) "," "-")
-      (match o with POk -> "ok" | PFail -> "fail" | PTimeoutApplied -> "tmo")
+      (match o with POk -> "ok" | PFail -> "fail" | PTimeoutApplied -> "tmo" | PTimeoutNotApplied -> "tmn")
   | FxEvent (r, n) -> Printf.sprintf "ev %s %s" (dec_of_n r) (string_of_str n)
+  | FxGetNode (n, ok) -> Printf.sprintf "getnode %s %s" (string_of_str n) (if ok then "ok" else "fail")
   | FxUpdateCC (o, out) ->
     Printf.sprintf "updcc %s fins=%s rest=%s %s" (string_of_str o.o_name) (fins_tok o.o_fins) (dec_of_n o.o_rest)
       (match out with UOk -> "ok" | UFail -> "fail" | UAppliedErr -> "aerr")
